@@ -220,6 +220,96 @@ class _DesugarQuantifiers:
         return out
 
 
+class _LoopAppendToExtend:
+    """`L = []` ... `for T in IT: [if C:] L.append(E)` at the top level of a function body, where L is a fresh local list that
+    nothing but `L.append/extend(...)` statements has touched so far and neither IT, C nor E mention L, becomes
+    `L.extend([E for T in IT if C])` (same list, same order; the list cannot be observed half-filled)."""
+
+    def run(self, tree: ast.AST) -> ast.AST:
+        for fn in ast.walk(tree):
+            if isinstance(fn, (ast.FunctionDef, ast.AsyncFunctionDef)):
+                fn.body = self._block(fn.body)
+        return tree
+
+    @staticmethod
+    def _mentions(n: ast.AST, name: str) -> bool:
+        return any(isinstance(x, ast.Name) and x.id == name for x in ast.walk(n))
+
+    @classmethod
+    def _only_adds(cls, st: ast.stmt, name: str) -> bool:
+        if not cls._mentions(st, name):
+            return True
+        if isinstance(st, ast.Expr) and isinstance(st.value, ast.Call) and isinstance(st.value.func, ast.Attribute) \
+                and isinstance(st.value.func.value, ast.Name) and st.value.func.value.id == name and st.value.func.attr in ("append", "extend") \
+                and not any(cls._mentions(a, name) for a in st.value.args) and not st.value.keywords:
+            return True
+        if isinstance(st, ast.If) and not cls._mentions(st.test, name):
+            return all(cls._only_adds(x, name) for x in st.body + st.orelse)
+        return False
+
+    def _block(self, body: List[ast.stmt]) -> List[ast.stmt]:
+        fresh: Dict[str, Any] = {}
+        out: List[ast.stmt] = []
+        for st in body:
+            tgt = st.targets[0] if isinstance(st, ast.Assign) and len(st.targets) == 1 else st.target if isinstance(st, ast.AnnAssign) else None
+            val = getattr(st, "value", None)
+            if isinstance(tgt, ast.Name) and (isinstance(val, ast.List) and not val.elts
+                                              or isinstance(val, ast.Call) and isinstance(val.func, ast.Name) and val.func.id == "list" and not val.args and not val.keywords):
+                fresh[tgt.id] = st
+                out.append(st)
+                continue
+            rep = self._rewrite(st, fresh) if isinstance(st, ast.For) else None
+            if rep is not None:
+                prev = out[-1] if out else None
+                nm_ = rep.value.func.value.id          # type: ignore[attr-defined]
+                ptg = (prev.targets[0] if isinstance(prev, ast.Assign) and len(prev.targets) == 1 else prev.target if isinstance(prev, ast.AnnAssign) else None)
+                if isinstance(ptg, ast.Name) and ptg.id == nm_ and fresh.get(nm_) is prev:
+                    # `L = []` directly followed by the loop: L = [E for T in IT if C]
+                    prev.value = rep.value.args[0]     # type: ignore[attr-defined]
+                    fresh[nm_] = True
+                    continue
+                out.append(rep)
+                continue
+            for nm in list(fresh):
+                if not self._only_adds(st, nm):
+                    del fresh[nm]
+            out.append(st)
+        return out
+
+    def _rewrite(self, st: ast.For, fresh: Dict[str, Any]) -> Optional[ast.stmt]:
+        if st.orelse or not st.body:
+            return None
+        # leading `if G: continue` guards, then the (possibly conditional) append
+        conds: List[ast.expr] = []
+        body = list(st.body)
+        while len(body) > 1 and isinstance(body[0], ast.If) and not body[0].orelse and len(body[0].body) == 1 and isinstance(body[0].body[0], ast.Continue):
+            conds.append(ast.UnaryOp(ast.Not(), body[0].test))
+            body = body[1:]
+        if len(body) != 1:
+            return None
+        inner = body[0]
+        if isinstance(inner, ast.If) and not inner.orelse and len(inner.body) == 1:
+            conds.append(inner.test)
+            inner = inner.body[0]
+        cond: Optional[ast.expr] = None
+        if conds:
+            cond = conds[0] if len(conds) == 1 else ast.BoolOp(ast.And(), conds)
+        if not (isinstance(inner, ast.Expr) and isinstance(inner.value, ast.Call) and isinstance(inner.value.func, ast.Attribute)
+                and inner.value.func.attr == "append" and isinstance(inner.value.func.value, ast.Name) and len(inner.value.args) == 1 and not inner.value.keywords):
+            return None
+        name = inner.value.func.value.id
+        elt = inner.value.args[0]
+        if name not in fresh or any(self._mentions(x, name) for x in (st.iter, st.target, elt) + ((cond,) if cond is not None else ())):
+            return None
+        if any(isinstance(x, (ast.Yield, ast.YieldFrom, ast.Await, ast.NamedExpr, ast.Lambda)) for y in (elt, cond, st.iter) if y is not None for x in ast.walk(y)):
+            return None
+        comp = ast.ListComp(elt, [ast.comprehension(st.target, st.iter, [cond] if cond is not None else [], 0)])
+        new = ast.Expr(ast.Call(ast.Attribute(ast.Name(name, ast.Load()), "extend", ast.Load()), [comp], []))
+        ast.copy_location(new, st)
+        ast.fix_missing_locations(new)
+        return new
+
+
 class _Rename(ast.NodeTransformer):
     def __init__(self, mapping: Dict[str, ast.expr]):
         self.mapping = mapping
@@ -462,6 +552,7 @@ class Module:
             raise AnalysisError(f"{rel} does not parse: {e}")
         self.tree = _DesugarEnumerate().visit(self.tree)
         self.tree = _DesugarQuantifiers().run(self.tree)
+        self.tree = _LoopAppendToExtend().run(self.tree)
         self.functions: Dict[str, ast.FunctionDef] = {}
         self.classes: Dict[str, ClassInfo] = {}
         self.assigns: Dict[str, List[ast.stmt]] = {}
@@ -562,7 +653,34 @@ class Program:
             self.by_rel[rel] = m
         self._stdlib: Dict[str, Module] = {}
         self._fold_guard: set = set()
+        self._static_aliases()
         self._relocations()
+
+    def _static_aliases(self) -> None:
+        """`name = staticmethod(f)` in a class body, f a module-level function of the package: the class gets a static method
+        `name` with f's body (f's globals must be the class module's, or f must use none)."""
+        import builtins
+        import copy as _copy
+        for m in list(self.modules.values()):
+            for ci in m.classes.values():
+                for nm, e in list(ci.class_consts.items()):
+                    if nm in ci.methods or not (isinstance(e, ast.Call) and isinstance(e.func, ast.Name) and e.func.id == "staticmethod"
+                                                and len(e.args) == 1 and not e.keywords and isinstance(e.args[0], ast.Name)):
+                        continue
+                    k, v = self.resolve(m, e.args[0].id)
+                    if k != "func" or v[1].decorator_list:
+                        continue
+                    src_mod, fdef = v
+                    if src_mod is not m:
+                        bound = {a.arg for a in ast.walk(fdef.args) if isinstance(a, ast.arg)}
+                        bound |= {n.id for n in ast.walk(fdef) if isinstance(n, ast.Name) and isinstance(n.ctx, ast.Store)}
+                        free = {n.id for n in ast.walk(fdef) if isinstance(n, ast.Name) and isinstance(n.ctx, ast.Load)} - bound
+                        if any(not hasattr(builtins, x) for x in free):
+                            continue
+                    new = _copy.deepcopy(fdef)
+                    new.name = nm
+                    new.decorator_list = [ast.copy_location(ast.Name("staticmethod", ast.Load()), fdef)]
+                    ci.methods[nm] = new  # type: ignore[assignment]
 
     def _relocations(self) -> None:
         """A known function that moved between "static method of a class" and "module-level function" keeps its known name:
